@@ -163,24 +163,181 @@ def cyclic_cleaned(V):
 
 
 # ------------------------------------------------------------------------------------ power-law equivalent cycles
+import z3
+from pyvc.arrays import is_arr
+
 IM = 'eqsig.im.'
 
 
-@unit('C13', 'calc_cyc_amp_array_w_power_law', functions=[IM + 'calc_cyc_amp_array_w_power_law'], cases=[dict(bkind='scalar')],
-      modes=('bounded',), sizes=dict(n=[2, 3]))
-def cyc_amp(V, bkind):
+def _pow_args(t):
+    """(base, exponent) of a term pow(base, exponent) built by the engine, or None"""
+    t = T.N(t)
+    if T.is_z3(t) and z3.is_app(t) and t.decl().name() == 'pow' and t.num_args() == 2:
+        return t.arg(0), t.arg(1)
+    return None
+
+
+def _pl_setup(V, st, dtype, n_arrays=1, need_nonzero=False):
+    def setup():
+        n = V.size('n', 2)
+        xs = [V.array('x%d' % k if n_arrays > 1 else 'x', n, dtype) for k in range(n_arrays)]
+        b = V.real('b')
+        ncyc = V.real('n_cyc')
+        V.assume(T.sgt(b, Q('0.05')), T.sle(b, 1), T.sgt(ncyc, 0))
+        if need_nonzero:
+            for x in xs:
+                for i in range(n):
+                    V.assume(T.sne(x[i], 0))
+        st.update(n=n, xs=xs, x=xs[0], b=b, ncyc=ncyc)
+        if n_arrays == 1:
+            return dict(values=xs[0], n_cyc=ncyc, b=b)
+        return dict(values0=xs[0], values1=xs[1], n_cyc=ncyc, b=b)
+    return setup
+
+
+def _peak_power_sums(V, x, n, b, ncyc):
+    """spec: S[i] = sum over the switched peaks j <= i of |x[j]|**(1/b) / 2 / n_cyc  (the switched-peak set is the one the real
+    get_switched_peak_array_indices reports for x: C12)"""
+    fp = V.itp.get_function(PK + 'get_switched_peak_array_indices')
+    p = concrete_indices(V.itp.call(fp, [x], {}))
+    E = T.sdiv(Q(1), b)
+    S, acc = [], Q(0)
+    for i in range(n):
+        term = T.spow(T.sabs(T.to_real(x[i])), E) if (p is not None and i in p) else T.spow(Q(0), E)
+        acc = T.sadd(acc, T.sdiv(T.sdiv(term, 2), ncyc))
+        S.append(acc)
+    return p, S
+
+
+@unit('C13', 'calc_cyc_amp_array_w_power_law', functions=[IM + 'calc_cyc_amp_array_w_power_law'], cases=[dict(dtype='float'), dict(dtype='int')],
+      modes=('bounded',), sizes=dict(n=[2, 3]), thorough_sizes=dict(n=[2, 3, 4, 5]), budget_ms=20000)
+def cyc_amp(V, dtype):
+    """equivalent uniform amplitude: length, defining formula (sum over the half-cycle peaks), non-decreasing"""
     st = {}
+    for out in V.run(IM + 'calc_cyc_amp_array_w_power_law', _pl_setup(V, st, dtype)):
+        out.replay_info = dict(module='power_law', fn='amp', dtype=dtype)
+        if not out.no_raise():
+            continue
+        n, x, b, ncyc = st['n'], st['x'], st['b'], st['ncyc']
+        r = out.result
+        ok = is_arr(r) and tuple(r.shape) == (n,)
+        out.prove('length-is-series-length', ok)
+        if not ok:
+            continue
+        p, S = _peak_power_sums(V, x, n, b, ncyc)
+        out.prove('switched-peaks-are-concrete-on-this-path', p is not None)
+        for i in range(n):
+            out.prove('amplitude-is-(sum-of-peak**(1/b)/(2 n_cyc))**b[%d]' % i, T.seq(r[i], T.spow(S[i], b)))
+        # monotone: x -> x**b is non-decreasing on x >= 0 for b > 0 (instances of that law for the partial sums, A4)
+        for i in range(1, n):
+            out.assume(T.simplies(T.sand(T.sge(S[i - 1], 0), T.sle(S[i - 1], S[i])), T.sle(T.spow(S[i - 1], b), T.spow(S[i], b))))
+            out.prove('non-decreasing[%d]' % i, T.sge(r[i], r[i - 1]))
+        if dtype == 'float':
+            out.unchanged('x', x)
+
+
+@unit('C13', 'two-identical-components', functions=[IM + 'calc_cyc_amp_combined_arrays_w_power_law', IM + 'calc_cyc_amp_gm_arrays_w_power_law',
+                                                    IM + 'calc_cyc_amp_array_w_power_law'],
+      cases=[dict(fn='combined', dtype='float'), dict(fn='gm', dtype='float'), dict(fn='combined', dtype='int'), dict(fn='gm', dtype='int')],
+      modes=('bounded',), sizes=dict(n=[2, 3]), thorough_sizes=dict(n=[2, 3, 4]), budget_ms=20000)
+def two_components(V, fn, dtype):
+    """two identical components give 2**b times (combined) / exactly (geometric mean) the single-component amplitude"""
+    st = {}
+    single = V.itp.get_function(IM + 'calc_cyc_amp_array_w_power_law')
 
     def setup():
         n = V.size('n', 2)
-        x = V.array('x', n)
+        x = V.array('x', n, dtype)
         b = V.real('b')
         ncyc = V.real('n_cyc')
         V.assume(T.sgt(b, Q('0.05')), T.sle(b, 1), T.sgt(ncyc, 0))
         st.update(n=n, x=x, b=b, ncyc=ncyc)
-        return dict(values=x, n_cyc=ncyc, b=b)
-    for out in V.run(IM + 'calc_cyc_amp_array_w_power_law', setup):
+        return dict(values0=x, values1=x, n_cyc=ncyc, b=b)
+    qn = IM + ('calc_cyc_amp_combined_arrays_w_power_law' if fn == 'combined' else 'calc_cyc_amp_gm_arrays_w_power_law')
+    for out in V.run(qn, setup):
+        out.replay_info = dict(module='power_law', fn=fn, dtype=dtype)
         if not out.no_raise():
             continue
+        n, x, b, ncyc = st['n'], st['x'], st['b'], st['ncyc']
         r = out.result
-        out.prove('length', tuple(r.shape) == (st['n'],))
+        ok = is_arr(r) and tuple(r.shape) == (n,)
+        out.prove('length-is-series-length', ok)
+        if not ok:
+            continue
+        p, S = _peak_power_sums(V, x, n, b, ncyc)
+        for i in range(n):
+            one = T.spow(S[i], b)                       # the single-component amplitude by its defining formula (unit above)
+            if fn == 'combined':
+                # (2 S)**b = 2**b * S**b  (power of a product, A4)
+                out.assume(T.simplies(T.sge(S[i], 0), T.seq(T.spow(T.smul(2, S[i]), b), T.smul(T.spow(Q(2), b), one))))
+                out.prove('combined-of-two-identical-components-is-2**b-times-the-single-amplitude[%d]' % i, T.seq(r[i], T.smul(T.spow(Q(2), b), one)))
+            else:
+                out.prove('geometric-mean-of-two-identical-components-is-the-single-amplitude[%d]' % i, T.seq(r[i], one))
+
+
+@unit('C13', 'calc_n_cyc_array_w_power_law', functions=[IM + 'calc_n_cyc_array_w_power_law'], cases=[dict(dtype='float'), dict(dtype='int')],
+      modes=('bounded',), sizes=dict(n=[2, 3]), thorough_sizes=dict(n=[2, 3, 4]), budget_ms=20000)
+def n_cyc_power_law(V, dtype):
+    """equivalent number of cycles (cut_off = 0, records without exact zeros): length, defining running sum 0.5*(p_k/a_ref)**(1/b) over
+    the half-cycle peaks reached so far, non-decreasing; and the INVERSE law: the amplitude computed for N = cycles(a_ref) is a_ref."""
+    st = {}
+    amp = V.itp.get_function(IM + 'calc_cyc_amp_array_w_power_law')
+
+    def setup():
+        n = V.size('n', 2)
+        x = V.array('x', n, dtype)
+        b = V.real('b')
+        a_ref = V.real('a_ref')
+        V.assume(T.sgt(b, Q('0.05')), T.sle(b, 1), T.sgt(a_ref, 0))
+        for i in range(n):
+            V.assume(T.sne(x[i], 0))
+        st.update(n=n, x=x, b=b, a_ref=a_ref)
+        return dict(values=x, a_ref=a_ref, b=b, cut_off=0)
+    for out in V.run(IM + 'calc_n_cyc_array_w_power_law', setup):
+        out.replay_info = dict(module='power_law', fn='cycles', dtype=dtype)
+        if not out.no_raise():
+            continue
+        n, x, b, a_ref = st['n'], st['x'], st['b'], st['a_ref']
+        r = out.result
+        ok = is_arr(r) and tuple(r.shape)[:1] == (n,)
+        out.prove('length-is-series-length', ok)
+        if not ok:
+            continue
+        cell = (lambda i: r[i, 0]) if len(r.shape) == 2 else (lambda i: r[i])
+        fp = V.itp.get_function(PK + 'get_switched_peak_array_indices')
+        p = concrete_indices(V.itp.call(fp, [x], {}))
+        out.prove('switched-peaks-are-concrete-on-this-path', p is not None)
+        E = T.sdiv(Q(1), b)
+        acc, C = Q(0), []
+        for i in range(n):
+            if i in p:
+                acc = T.sadd(acc, T.sdiv(Q('1/2'), T.spow(T.sdiv(a_ref, T.sabs(T.to_real(x[i]))), E)))
+            C.append(acc)
+        for i in range(n):
+            out.prove('cycles-are-the-running-sum-of-0.5/(a_ref/peak)**(1/b)[%d]' % i, T.seq(cell(i), C[i]))
+        for i in range(1, n):
+            out.prove('non-decreasing[%d]' % i, T.sge(cell(i), cell(i - 1)))
+        if dtype == 'float':
+            out.unchanged('x', x)
+        # inverse law, from the two defining formulas: N = sum_k 0.5 (p_k/a_ref)^E ; amp = (sum_k p_k^E / (2N))^b = a_ref
+        out.replay_info = dict(module='power_law', fn='inverse', dtype=dtype)
+        N_ = cell(n - 1)
+        try:
+            back = V.itp.call(amp, [x], dict(n_cyc=N_, b=b))
+        except T.PyExc as e:
+            out.prove('inverse/no-exception[%s]' % e.kind, False)
+            continue
+        A = T.spow(a_ref, E)
+        lem = [T.sgt(A, 0), T.seq(T.spow(A, b), a_ref)]                                   # (a_ref**(1/b))**b = a_ref  (A4)
+        pk = [T.spow(T.sabs(T.to_real(x[i])), E) for i in p]
+        for i, q in zip(p, pk):
+            lem.append(T.sgt(q, 0))
+            lem.append(T.seq(T.spow(T.sdiv(a_ref, T.sabs(T.to_real(x[i]))), E), T.sdiv(A, q)))   # (a/p)**E = a**E / p**E  (A4)
+        for h in lem:
+            out.assume(h)
+        got = back[n - 1]
+        pa = _pow_args(got)
+        out.prove('inverse/amplitude-has-the-form-S**b', pa is not None)
+        if pa is not None and len(p) <= 2:            # (three or more half cycles: the rational identity exceeds the solver budget; bound stated)
+            out.prove('inverse/normalised-sum-equals-a_ref**(1/b)', T.seq(T.N(pa[0]), A))
+            out.prove('inverse/amplitude-for-N=cycles(a_ref)-is-a_ref', T.seq(got, a_ref), extra_hyps=[T.seq(T.N(pa[0]), A)])
